@@ -831,3 +831,20 @@ Section FullRing.
     - intros H. unfold rot_range, NW in *. cbn [fst snd]. f_equal; lia.
   Qed.
 End FullRing.
+
+(* ---------------------------------------------------------------- statements pinned in Props/C13.v *)
+Lemma blocks_disjoint_lemma (sig : Type) (ws : list (option sig)) :
+  NoDup (contiguous_ranges ws) /\ NoDup (flat_map range_to_indices (contiguous_ranges ws)).
+Proof. split; [apply cr_nodup | apply cr_indices_nodup]. Qed.
+
+Lemma block_arguments_rotation_lemma (sig : Type) (ws : list (option sig)) (s f l : N) :
+  wf ws -> s <= NW -> f < NW -> 1 <= l <= NW ->
+  block_sigs (rotw s ws) (rot_range s (f, l)) = block_sigs ws (f, l) /\
+  range_to_indices (rot_range s (f, l)) = map (fun i => (i + s) mod NW) (range_to_indices (f, l)).
+Proof. intros; split; [now apply block_sigs_rot | now apply rti_rot]. Qed.
+
+Lemma block_signals_present_lemma (sig : Type) (ws : list (option sig)) (f l : N) :
+  block ws f l ->
+  length (block_sigs ws (f, l)) = length (range_to_indices (f, l)) /\
+  length (range_to_indices (f, l)) = N.to_nat (range_to_len (f, l)).
+Proof. intros; split; [now apply block_sigs_all_some | apply rti_length]. Qed.
